@@ -8,7 +8,7 @@ from checks import appcommon
 # per property: directed scenarios, random profiles (quick / thorough), outcome kinds that must be
 # exercised on the unchanged tree (vacuity guard), bounded model config(s)
 TABLE = {
-    "C02": dict(evm=True, directed=["evm_sweep_to_zero", "wrap_amount", "checktx_not_delivered", "evm_value", "evm_selfdestruct", "evm_nested_revert", "evm_mixed", "recreate_in_block", "genesis_twins_unbond", "twin_jail", "huge_stake", "same_block_withdraw",
+    "C02": dict(evm=True, directed=["evm_odd_addresses", "fee_edges", "evm_sweep_to_zero", "wrap_amount", "checktx_not_delivered", "evm_value", "evm_selfdestruct", "evm_nested_revert", "evm_mixed", "recreate_in_block", "genesis_twins_unbond", "twin_jail", "huge_stake", "same_block_withdraw",
                           "slash_then_unstake", "no_proposer_block", "many_unbonding", "forced_unbond"],
                 quick=[dict(n=6, blocks=25), dict(n=4, blocks=20, boundary=True)],
                 thorough=[dict(n=40, blocks=40), dict(n=40, blocks=40, seed_off=50), dict(n=30, blocks=30, boundary=True),
@@ -18,7 +18,7 @@ TABLE = {
                 quick=[dict(n=8, blocks=20, maxtx=7)],
                 thorough=[dict(n=50, blocks=40, maxtx=8), dict(n=50, blocks=40, maxtx=8, seed_off=31)],
                 need=[("transfer", True), ("transfer", False), ("staking", True)]),
-    "C05": dict(evm=True, directed=["evm_rejected_then_more", "native_to_contract", "wrap_amount", "evm_fail", "evm_nested_revert", "fee_edges", "nonce_replay", "vote_window_edges", "forced_unbond", "huge_stake", "same_block_withdraw",
+    "C05": dict(evm=True, directed=["evm_odd_addresses", "evm_rejected_then_more", "native_to_contract", "wrap_amount", "evm_fail", "evm_nested_revert", "fee_edges", "nonce_replay", "vote_window_edges", "forced_unbond", "huge_stake", "same_block_withdraw",
                           "setdoc_and_accounts", "price_change"],
                 quick=[dict(n=8, blocks=20, maxtx=7), dict(n=3, blocks=15, boundary=True)],
                 thorough=[dict(n=50, blocks=40, maxtx=8), dict(n=40, blocks=40, maxtx=8, seed_off=11), dict(n=30, blocks=30, boundary=True)],
@@ -43,7 +43,7 @@ TABLE = {
                 quick=[dict(n=8, blocks=30)],
                 thorough=[dict(n=60, blocks=50), dict(n=60, blocks=50, seed_off=29)],
                 need=[("evidence", True), ("absent", True)]),
-    "C15": dict(directed=["many_proposals_one_block", "evidence_after_close", "evidence_burst", "vote_window_edges", "threshold_exact", "majority_lost", "two_proposals_one_block", "price_change", "many_unbonding"],
+    "C15": dict(directed=["voter_leaves_set", "many_proposals_one_block", "evidence_after_close", "evidence_burst", "vote_window_edges", "threshold_exact", "majority_lost", "two_proposals_one_block", "price_change", "many_unbonding"],
                 quick=[dict(n=8, blocks=30)],
                 thorough=[dict(n=60, blocks=50), dict(n=60, blocks=60, seed_off=37)],
                 need=[("proposal", True), ("proposal", False), ("voting", True), ("voting", False)]),
@@ -56,7 +56,7 @@ TABLE = {
                 quick=[dict(n=4, blocks=20, maxtx=7)],
                 thorough=[dict(n=40, blocks=40, maxtx=8), dict(n=20, blocks=30, boundary=True)],
                 need=[("transfer", True), ("transfer", False), ("voting", True), ("proposal", True), ("setdoc", True), ("unstaking", True), ("withdraw", True)]),
-    "C17": dict(directed=["evm_sweep_to_zero", "evm_quiet_blocks", "evm_rejected_then_more", "native_to_contract", "evm_basic", "evm_value", "evm_nested_revert", "evm_selfdestruct", "evm_fail", "transfer_to_created", "evm_mixed"], evm=True,
+    "C17": dict(directed=["evm_odd_addresses", "evm_sweep_to_zero", "evm_quiet_blocks", "evm_rejected_then_more", "native_to_contract", "evm_basic", "evm_value", "evm_nested_revert", "evm_selfdestruct", "evm_fail", "transfer_to_created", "evm_mixed"], evm=True,
                 quick=[dict(n=8, blocks=25, maxtx=6)],
                 thorough=[dict(n=60, blocks=40, maxtx=8), dict(n=60, blocks=40, maxtx=8, seed_off=47), dict(n=30, blocks=30, boundary=True, seed_off=53)],
                 need=[("contract", True), ("contract", False), ("transfer", True)]),
